@@ -19,12 +19,16 @@ TraceInit ==
     /\ RegInit
     /\ t \in 1..NTraces /\ l = 1
     /\ committed = Content(Log[t].init)
+    /\ corigin = Log[t].origin /\ worigin = FALSE
     /\ working = <<>> /\ mode = "idle" /\ replacing = FALSE /\ nops = 0 /\ res = "ok" /\ val = <<"-">>
 
 e == Ev(t)[l]
 Adv == l' = l + 1 /\ t' = t
 Outcome == Check(t, l, "Outcome", (res' = "refused") <=> (e.res = "err"))
-State == Check(t, l, "ReadYourWrites", LogProj(e.state) = Proj(working'))
+(* the zone's own origin attribute, read from outside the transaction after every call *)
+ZoneOrigin == Check(t, l, "OriginAtomic", e.zorigin = corigin')
+State == /\ Check(t, l, "ReadYourWrites", LogProj(e.state) = Proj(working'))
+         /\ ZoneOrigin
 
 TInitEv == /\ e.op = "init"
            /\ Check(t, l, "InitLoaded", LogProj(e.zone) = Proj(committed))
@@ -56,12 +60,14 @@ TNames == /\ e.op = "names" /\ IterNames
           /\ Outcome /\ Check(t, l, "ReadValue", NormVal(e.val) = val') /\ State /\ Adv
 TChanged == /\ e.op = "changed" /\ e.res = "ok" /\ Changed(e.val[2])
             /\ State /\ Adv
+TLearn == /\ e.op = "learn" /\ LearnOrigin /\ Outcome /\ State /\ Adv
 TCallback == /\ e.op = "cbraise" /\ CallbackRaises
              /\ Outcome /\ State /\ Adv
 TEnd == /\ e.op = "end"
         /\ IF e.how \in {"commit", "cm_commit"} THEN Commit ELSE Rollback
         /\ Check(t, l, "EndOk", e.res = "ok")
         /\ Check(t, l, "Atomic", LogProj(e.zone) = Proj(committed'))
+        /\ ZoneOrigin
         /\ Adv
 TAfter == /\ e.op = "after" /\ UseAfterEnd
           /\ Check(t, l, "EndedRefuses", \A i \in 1..Len(e.res) : e.res[i] = "err")
@@ -71,7 +77,7 @@ TAfter == /\ e.op = "after" /\ UseAfterEnd
 TraceNext ==
     /\ l <= Len(Ev(t))
     /\ \/ TInitEv \/ TBegin \/ TAdd \/ TReplace \/ TDelName \/ TOutZone \/ TDelType \/ TDelRds
-       \/ TSerial \/ TGet \/ TExists \/ TGetNode \/ TNames \/ TChanged \/ TCallback \/ TEnd \/ TAfter
+       \/ TSerial \/ TGet \/ TExists \/ TGetNode \/ TNames \/ TChanged \/ TLearn \/ TCallback \/ TEnd \/ TAfter
 
 Accepted == Accepting(t, l)
 =============================================================================
